@@ -27,6 +27,10 @@ def build(pc, E, canary=None):
     pc.add_functions(E, TARGETS)
     if canary is not None:
         return
+    pc.bounded_native('C16.B/cookie-sessions', 'cookie_case.py', {'cookies': COOKIES},
+                      'one client against a real application with the signed-cookie middleware: store/read round trip for values '
+                      'covering the base64 alphabet edge characters, non-ASCII and long text; clear(); tampered / truncated / '
+                      'malformed / non-ASCII cookies answered 200 with an empty cookie', 'fixed catalogue', cases=len(COOKIES) + 10)
     # ground witnesses of the assumed contract on the dependency (A-sc): executed natively on every run
     try:
         out = native('cookie_witness.py', {}, repo_root=E.repo.root)
